@@ -175,12 +175,12 @@ def run(pid, tier, seed, kinds):
     rc, out, _ = C.sh([harness], input=b"maxkeys\n")
     mk = dict(zip(("plain", "delete", "plain6", "delete6"), map(int, out.split())))
     stats = {"dumps": 0, "queries": 0, "seq_histories": 0, "par_histories": 0, "par_steps": 0, "maxKeys": mk}
-    nseq = 250 if tier == "quick" else 6000
+    nseq = 400 if tier == "quick" else 8000
     hist = []
     for i in range(nseq):
         r = rng.fork("seq%d" % i)
         base = r.choice(kinds)
-        kind = base + ("6" if r.chance(1, 3) else "")       # a third of the histories on 6-key nodes
+        kind = base + ("6" if r.chance(1, 2) else "")       # half of the histories on 6-key nodes
         hints = r.below(2)
         hist.append((kind, hints, seq_history(r, base)))
     rc, out, err = C.sh([harness], input="".join("seq %s %d %s\n" % (k, h, " ".join(o)) for k, h, o in hist).encode(), timeout=3000)
